@@ -99,8 +99,11 @@ class ModbusClientProtocol(protocol.Protocol,
         :param data: The data returned from the server
         """
         unit = self.framer.decode_data(data).get("unit", 0)
+        # replies are paired with requests by the transaction manager, not
+        # by unit: accept the frame whatever unit it carries (the unit taken
+        # from this chunk is meaningless when a reply arrives in pieces)
         self.framer.processIncomingPacket(data, self._handleResponse,
-                                          unit=unit)
+                                          unit=unit, single=True)
 
     def execute(self, request):
         """ 
